@@ -87,6 +87,8 @@ fn body(e: &Exhaust, cnt: &mut Vec<(String, u64)>) -> Result<(), (String, String
     let choices = [a1, any, lo, a1];
     let total = 16384usize;
     let mut n_ok = 0usize;
+    // ports in allocation order (most recent last)
+    let mut order: Vec<u16> = vec![];
     loop {
         let addr = choices[n_ok % choices.len()];
         match bind(&w, e.tcp, SocketAddr::new(addr, 0)) {
@@ -101,9 +103,15 @@ fn body(e: &Exhaust, cnt: &mut Vec<(String, u64)>) -> Result<(), (String, String
                     ));
                 }
                 socks.push((p, s));
+                order.push(p);
                 n_ok += 1;
                 if n_ok > total {
                     return Err(("ephemeral-range-overrun".into(), format!("{n_ok} port-0 binds succeeded in a 16384 port range")));
+                }
+                if used.len() == total {
+                    // full: the cursor now sits right behind the last port
+                    // handed out; no failing attempt has moved it yet
+                    break;
                 }
             }
             Err(er) => {
@@ -121,6 +129,69 @@ fn body(e: &Exhaust, cnt: &mut Vec<(String, u64)>) -> Result<(), (String, String
             "exhaustion-early".into(),
             format!("port-0 bind failed AddrInUse after {n_ok} allocations although only {} of 16384 ports are in use", used.len()),
         ));
+    }
+    // Freeing one socket makes exactly its port available again, wherever
+    // that port sits relative to the allocator's cursor: the most recently
+    // allocated one straight after the fill (no failed attempt in between),
+    // then - each time with the range full again - the 1st, 2nd, 3rd most
+    // recent, two random ones and one squatted at the other local address;
+    // between the checks a port-0 bind on the full range must fail AddrInUse
+    // (every other time, so both cursor histories occur).
+    #[derive(Clone, Copy, Debug)]
+    enum Pick {
+        Recent(usize),
+        Random,
+        Squatted,
+    }
+    let plan = [Pick::Recent(0), Pick::Recent(0), Pick::Recent(1), Pick::Recent(2), Pick::Random, Pick::Squatted, Pick::Random, Pick::Recent(0)];
+    for (round, pick) in plan.iter().enumerate() {
+        let p = match pick {
+            Pick::Squatted if !pre.is_empty() => {
+                let (p, s) = pre.swap_remove(0);
+                drop(s);
+                p
+            }
+            Pick::Recent(k) if order.len() > *k => {
+                let p = order[order.len() - 1 - k];
+                let i = socks.iter().position(|(q, _)| *q == p).unwrap();
+                let (_, s) = socks.swap_remove(i);
+                drop(s);
+                p
+            }
+            _ => {
+                let i = rng.usize_below(socks.len());
+                let (p, s) = socks.swap_remove(i);
+                drop(s);
+                p
+            }
+        };
+        order.retain(|q| *q != p);
+        used.remove(&p);
+        let addr = choices[round % choices.len()];
+        match bind(&w, e.tcp, SocketAddr::new(addr, 0)) {
+            Ok((s, q)) => {
+                if q != p {
+                    return Err(("exhaustion-freed-port".into(), format!("only port {p} is free ({pick:?}) but port-0 bind returned {q}")));
+                }
+                used.insert(q);
+                socks.push((q, s));
+                order.push(q);
+            }
+            Err(er) => {
+                return Err((
+                    "exhaustion-freed-port".into(),
+                    format!("port {p} ({pick:?} of the allocation order) was freed, 16383 ports are in use, but port-0 bind failed with {:?}", er.kind()),
+                ))
+            }
+        }
+        if round % 2 == 0 {
+            match bind(&w, e.tcp, SocketAddr::new(addr, 0)) {
+                Err(er) if er.kind() == ErrorKind::AddrInUse => count("exhaustion_full_range_refusals", 1),
+                Err(er) => return Err(("exhaustion-wrong-error".into(), format!("range full, port-0 bind failed with {:?}, expected AddrInUse", er.kind()))),
+                Ok((_, q)) => return Err(("ephemeral-range-overrun".into(), format!("range full, port-0 bind still returned {q}"))),
+            }
+        }
+        count("exhaustion_free_one_checks", 1);
     }
     // a TCP connect needs an ephemeral port too: none is left
     if e.tcp {
@@ -140,37 +211,6 @@ fn body(e: &Exhaust, cnt: &mut Vec<(String, u64)>) -> Result<(), (String, String
         }
         w.cur(0);
         drop(fut);
-    }
-    // freeing one makes exactly that one available (three times, incl. a
-    // pre-bound one)
-    for round in 0..3 {
-        let p = if round == 2 && !pre.is_empty() {
-            let (p, s) = pre.swap_remove(0);
-            drop(s);
-            p
-        } else {
-            let i = rng.usize_below(socks.len());
-            let (p, s) = socks.swap_remove(i);
-            drop(s);
-            p
-        };
-        used.remove(&p);
-        let addr = choices[round % choices.len()];
-        match bind(&w, e.tcp, SocketAddr::new(addr, 0)) {
-            Ok((s, q)) => {
-                if q != p {
-                    return Err(("exhaustion-freed-port".into(), format!("only port {p} is free but port-0 bind returned {q}")));
-                }
-                used.insert(q);
-                socks.push((q, s));
-            }
-            Err(er) => return Err(("exhaustion-freed-port".into(), format!("port {p} was freed but port-0 bind failed with {:?}", er.kind()))),
-        }
-        match bind(&w, e.tcp, SocketAddr::new(addr, 0)) {
-            Err(er) if er.kind() == ErrorKind::AddrInUse => {}
-            r => return Err(("exhaustion-wrong-error".into(), format!("range full again, port-0 bind gave {:?}", r.map(|x| x.1)))),
-        }
-        count("exhaustion_free_one_checks", 1);
     }
     // wrap-around: free 200 random, allocate 200: exactly the freed set
     let mut freed = BTreeSet::new();
